@@ -25,7 +25,8 @@ func init() {
 			"R4b blobReader.Close cancels on every path; every caller of runReadWithCancel cancels, hands the cancel to the returned reader, or returns it; R6 (as C15.R6). " +
 			"R7 inside a read helper's callback every member call uses the context handed to the callback. " +
 			"R1b the channel the member goroutines send their answers on is unbuffered. " +
-			"R8 every function of ociunify that returns a cancel function returns a non-nil one on every return.",
+			"R8 every function of ociunify that returns a cancel function returns a non-nil one on every return. " +
+			"R9 in the goroutine that asks a member, every path from the answer to the end delivers the answer (send arm) or closes it.",
 		NotDecided: "wall-clock behaviour of slow members and actual goroutine scheduling are not decided; the rules decide the shape that makes every answer order and cancellation point leak-free.",
 		Technique:  "static analysis: goroutine/channel shape on SSA (select arms, deferred close), typestate of received results, dominance",
 	})
@@ -62,6 +63,7 @@ func runC16(c *core.Ctx) {
 	memberCallsUseMemberContext(c, "C16.R7")
 	resultChannelUnbuffered(c, "C16.R1")
 	cancelFuncNeverNil(c, "C16.R8")
+	undeliveredAnswerIsClosed(c, "C16.R9")
 	c16Both(c)
 }
 
